@@ -1164,7 +1164,7 @@ func TestProp(t *testing.T) {
 		o.MaxStmts = 6
 		o.MaxDepth = 3
 		o.Dice, o.CoC, o.WoD, o.Fate, o.DC = true, true, true, true, true
-		o.SingleKeyDicts = true
+		o.SingleKeyDicts = false // since fix 6269628 a dict prints and lists its entries in key order
 		o.ThisAssign = false
 		o.StrIndexOOB = false
 		o.Computed = !s.Avoid("outer_computed")
@@ -1282,7 +1282,7 @@ func TestProp(t *testing.T) {
 			o.MaxStmts = 6
 			o.MaxDepth = 3
 			o.Dice, o.CoC, o.WoD, o.Fate, o.DC = true, true, true, true, true
-			o.SingleKeyDicts = true
+			o.SingleKeyDicts = false // since fix 6269628 a dict prints and lists its entries in key order
 			o.Computed = !s.Avoid("outer_computed")
 			g := gen.NewG(t, o, nil)
 			p := g.Program()
@@ -1347,7 +1347,7 @@ func TestProp(t *testing.T) {
 			o.MaxStmts = 5
 			o.MaxDepth = 3
 			o.Dice, o.CoC, o.WoD, o.Fate, o.DC = true, true, true, true, true
-			o.SingleKeyDicts = true
+			o.SingleKeyDicts = false // since fix 6269628 a dict prints and lists its entries in key order
 			o.Computed = !s.Avoid("outer_computed")
 			g := gen.NewG(t, o, nil)
 			c.Src = gen.Print(g.Program())
